@@ -122,7 +122,11 @@ def main(argv=None):
                 nonlocal submitted, exhausted
                 while len(pending) < nworkers * 3 and not exhausted:
                     if time.time() - t0 > budget and submitted > 0:
-                        return
+                        # the budget is soft while a mandatory monitor has not been reached yet (slow or loaded machine): keep going, up to 4x
+                        req_ = getattr(mod, 'REQUIRED', [])
+                        req_ = req_.get(tier, []) if isinstance(req_, dict) else req_
+                        if all(counters.get(k_, 0) > 0 for k_ in req_) or time.time() - t0 > budget * 4:
+                            return
                     if args.max_cases is not None and submitted >= args.max_cases:
                         return
                     try:
